@@ -12,7 +12,6 @@ pub(super) fn range_accessors() {
     assert!(r.min_values() == lo && r.max_values() == hi);
     assert!(r.takes_values() == (hi != 0));
     assert!(r.is_fixed() == (lo == hi));
-    assert!(r.is_multiple() == (hi > 1));
     assert!(r.num_values() == if lo == hi { Some(lo) } else { None });
     assert!(r.is_unbounded() == (hi == usize::MAX));
     kani::cover!(lo == hi && lo > 1);
